@@ -8,35 +8,49 @@ import (
 	"github.com/nspcc-dev/neo-go/pkg/core/storage"
 )
 
-func TestProbe(t *testing.T) {
+func seekAll(tr *mpt.Trie, st *storage.MemCachedStore, prefix, start string, back bool) []string {
+	ts := mpt.NewTrieStore(tr.StateRoot(), mpt.ModeAll, st)
+	var res []string
+	ts.Seek(storage.SeekRange{Prefix: append([]byte{byte(storage.STStorage)}, prefix...), Start: []byte(start), Backwards: back}, func(k, v []byte) bool {
+		res = append(res, fmt.Sprintf("%x", k[1:]))
+		return true
+	})
+	return res
+}
+
+func TestProbe3(t *testing.T) {
+	// A: residual path of the start node vs Start compared with an inverted condition (trie_store.go:90)
 	st := storage.NewMemCachedStore(storage.NewMemoryStore())
 	tr := mpt.NewTrie(nil, mpt.ModeAll, st)
-	put := func(k string, v string) {
-		if err := tr.Put([]byte(k), []byte(v)); err != nil {
-			t.Fatal(err)
-		}
-	}
-	put("X", "vx")
-	put("X\x05\x01", "v0501")
-	put("X\x70", "v70")
-	put("Y\x12\x34", "a")
-	put("Y\x12\x35", "b")
-	put("Y\x20", "c")
+	_ = tr.Put([]byte{0xAA, 0x00, 0x00}, []byte("v"))
+	_ = tr.Put([]byte{0xBB}, []byte("w"))
 	tr.Flush(0)
-	seek := func(prefix, start string, back bool) {
-		ts := mpt.NewTrieStore(tr.StateRoot(), mpt.ModeAll, st)
-		var res []string
-		ts.Seek(storage.SeekRange{Prefix: append([]byte{byte(storage.STStorage)}, prefix...), Start: []byte(start), Backwards: back}, func(k, v []byte) bool {
-			res = append(res, fmt.Sprintf("%x=%s", k[1:], v))
-			return true
-		})
-		fmt.Printf("seek prefix=%x start=%x back=%v -> %v\n", prefix, start, back, res)
-	}
-	seek("X", "\x05\x01", true)
-	seek("X", "\x15\x01", true)
-	seek("X", "\x05\x01", false)
-	seek("Y", "\x13\x00", true)
-	seek("Y", "\x13\x00", false)
-	seek("Y", "\x11\x00", true)
-	seek("Y", "\x11\x00", false)
+	fmt.Println("A fwd  prefix=AA start=01 (expect [])        ->", seekAll(tr, st, "\xAA", "\x01", false))
+	fmt.Println("A back prefix=AA start=01 (expect [aa0000])  ->", seekAll(tr, st, "\xAA", "\x01", true))
+	fmt.Println("A fwd  prefix=AA start=0000 (expect [aa0000])->", seekAll(tr, st, "\xAA", "\x00\x00", false))
+	// B: the key equal to the prefix is a leaf and Start is not empty, backwards
+	st = storage.NewMemCachedStore(storage.NewMemoryStore())
+	tr = mpt.NewTrie(nil, mpt.ModeAll, st)
+	_ = tr.Put([]byte{0xAA}, []byte("v"))
+	_ = tr.Put([]byte{0xBB}, []byte("w"))
+	tr.Flush(0)
+	fmt.Println("B back prefix=AA start=01 (expect [aa])      ->", seekAll(tr, st, "\xAA", "\x01", true))
+	// C: a read after PutBatch corrupts the in-memory trie (append on a key slice sharing its backing array)
+	st = storage.NewMemCachedStore(storage.NewMemoryStore())
+	tr = mpt.NewTrie(nil, mpt.ModeAll, st)
+	k1, k2, k3 := []byte{0x55, 0x11}, []byte{0x55, 0xf0}, []byte{0x55, 0x00, 0x12}
+	_ = tr.Put(k1, []byte("a"))
+	_, err := tr.PutBatch(mpt.MapToMPTBatch(map[string][]byte{"\x00" + string(k2): []byte("b"), "\x00" + string(k3): []byte("c")}))
+	_, e0 := tr.Get(k2)
+	_, e1 := tr.Get(k1)
+	_, e2 := tr.Get(k2)
+	fmt.Println("C batch err", err, "Get(k2) before reading k1:", e0, " after reading k1:", e2, e1)
+	fr := mpt.NewTrie(nil, mpt.ModeAll, storage.NewMemCachedStore(storage.NewMemoryStore()))
+	_ = fr.Put(k1, []byte("a"))
+	_ = fr.Put(k2, []byte("b"))
+	_ = fr.Put(k3, []byte("c"))
+	fmt.Println("C root equal before further mutation:", tr.StateRoot() == fr.StateRoot())
+	_ = tr.Put([]byte{0x55, 0xf0, 0x01}, []byte("d"))
+	_ = fr.Put([]byte{0x55, 0xf0, 0x01}, []byte("d"))
+	fmt.Println("C root equal after Put(55f001):", tr.StateRoot() == fr.StateRoot())
 }
